@@ -382,12 +382,17 @@ theorem buildMaterial_shown (s : Scene) (w : W) (m : PMaterial) (bct mrt : Optio
       | none => simp [hn, OptShown] at h5
       | some ti => obtain ⟨id, sc⟩ := x; simp only [hn, Option.map_some] at h5; exact ⟨rfl, h5⟩
 
-/-! ### `equal` materials are shown by the same written material — under two congruence hypotheses -/
+/-! ### `equal` materials are shown by the same written material -/
 
-/-- textures that `PolyformTexture.equal` identifies have the same sampler, NAME included.  (`equal` compares only the four
-    enums; without this hypothesis `dedupOK` is false: `gltf_dedup_samplername_counterexample`.) -/
+/-- textures that `PolyformTexture.equal` identifies have the same sampler, name / extras included (true of the current
+    equality, which compares the samplers with `Sampler.equal`: `samplerCongr`) -/
 def SamplerCongr (s : Scene) : Prop :=
   ∀ (i j : Nat) (x y : PTexture), s.texHeap[i]? = some x → s.texHeap[j]? = some y → texKey x = texKey y → x.sampler = y.sampler
+
+theorem samplerCongr (s : Scene) : SamplerCongr s := by
+  intro i j x y _ _ hk
+  simp only [texKey, Prod.mk.injEq] at hk
+  exact hk.2.2.2
 
 /-- meaning of `eqKey`: extension values of the scene's materials that compare `==` in Go (same id, same key) are the same
     value (same payload, same texture pointers) -/
@@ -471,7 +476,7 @@ theorem matShown_congr {s : Scene} {w : W} {a b : PMaterial} {g : GMaterial} (hs
 /-- `AddMaterial` on a material of the scene: the tracker keeps showing what it tracks, the tables only grow, and the
     returned index points at a written material that SHOWS the argument — also when an `equal` tracked material was reused -/
 theorem addMaterial_shown (s : Scene) (w : W) (m : PMaterial) (r : W × Nat) (h : addMaterial (thOf s) w m = .ok r)
-    (hw : MInv s w) (hsc : SamplerCongr s) (hec : ExtCongr s) (hm : m ∈ s.matHeap) :
+    (hw : MInv s w) (hec : ExtCongr s) (hm : m ∈ s.matHeap) :
     MInv s r.1 ∧ TGrow w r.1 ∧ (∃ ms, r.1.materials = w.materials ++ ms)
     ∧ ∃ g, r.1.materials[r.2]? = some g ∧ MatShown s r.1 m g := by
   unfold addMaterial at h
@@ -486,7 +491,7 @@ theorem addMaterial_shown (s : Scene) (w : W) (m : PMaterial) (r : W × Nat) (h 
     obtain ⟨g, hg, hshown⟩ := hw.shown e hmem
     have heq := (pmaterial_equal_iff (thOf s) e.1 m).mp h2
     have hexts : e.1.exts = m.exts := list_eq_of_keys _ _ heq.exts (hec e.1 (hw.heap e hmem) m hm)
-    exact ⟨hw, TGrow.rfl' w, ⟨[], by simp⟩, g, hg, matShown_congr hsc hexts heq hshown⟩
+    exact ⟨hw, TGrow.rfl' w, ⟨[], by simp⟩, g, hg, matShown_congr (samplerCongr s) hexts heq hshown⟩
   · split at h
     · cases h
     · rename_i r1 h1
